@@ -54,7 +54,7 @@ def run_property(rep, prop, tier, rng, judge, rule, nspecs=None, opts=None, tag=
             tie = None
             if iv != mv:
                 tie = (iv, mv, "value")
-            elif prop == "C09" and not iv.startswith("panic") and not t2.allocs_ok(ma, ia, t2.spec_sizes(spec)):
+            elif prop == "C09" and spec.get("flags", {}).get("elemssure") == "true" and not iv.startswith("panic") and not t2.allocs_ok(ma, ia, t2.spec_sizes(spec)):
                 tie = (" ".join(ia), " ".join(ma), "allocation log")
             if tie:
                 ntie += 1
@@ -67,7 +67,7 @@ def run_property(rep, prop, tier, rng, judge, rule, nspecs=None, opts=None, tag=
             # whose decoders were exercised: the plan-level ones must hold for everything rustc compiled
             for h in hyp:
                 hyp[h] += s.get("flags", {}).get(h) == "true"
-            if s["status"] == "ok" and not all(s.get("flags", {}).get(h) == "true" for h in ("supported", "plansok", "sizeexact", "finite", "outputok", "elemssure", "paramsok", "labelstyped", "variantsdistinct", "implfits")):
+            if s["status"] == "ok" and not s.get("oos") and not all(s.get("flags", {}).get(h) == "true" for h in ("supported", "plansok", "sizeexact", "finite", "outputok", "elemssure", "paramsok", "labelstyped", "variantsdistinct", "implfits")):
                 uncovered.append(s)
             if s["status"] != "ok":
                 not_compiled.append({"chunk": ci, "k": k, "status": s["status"]})
